@@ -3,6 +3,7 @@ package eval
 import (
 	"errors"
 	"fmt"
+	"reflect"
 	"strconv"
 	"strings"
 	"time"
@@ -310,8 +311,18 @@ func (c comparison) execute(_ *Ctx, params []Value) (Value, error) {
 	}
 }
 
+// uncomparable reports whether a == b would panic:
+// both have the same dynamic type and that type (a list, a set) is not comparable
+func uncomparable(a, b Value) bool {
+	ta, tb := reflect.TypeOf(a), reflect.TypeOf(b)
+	return ta != nil && ta == tb && !ta.Comparable()
+}
+
 func comparisonEquals(_ *Ctx, params []Value) (Value, error) {
 	if len(params) == 2 {
+		if uncomparable(params[0], params[1]) {
+			return nil, ParamTypeError(modeNames[equals], "comparable value", params[1])
+		}
 		return params[0] == params[1], nil
 	}
 
@@ -321,6 +332,9 @@ func comparisonEquals(_ *Ctx, params []Value) (Value, error) {
 
 	v := params[0]
 	for _, p := range params {
+		if uncomparable(v, p) {
+			return nil, ParamTypeError(modeNames[equals], "comparable value", p)
+		}
 		if v != p {
 			return false, nil
 		}
@@ -333,6 +347,9 @@ func comparisonNotEquals(_ *Ctx, params []Value) (Value, error) {
 		return nil, errCnt2(notEquals, params)
 	}
 
+	if uncomparable(params[0], params[1]) {
+		return nil, ParamTypeError(modeNames[notEquals], "comparable value", params[1])
+	}
 	return params[0] != params[1], nil
 }
 
